@@ -29,23 +29,24 @@ type violation struct {
 }
 
 type caseResult struct {
-	ID         string      `json:"case"`
-	Note       string      `json:"size_search,omitempty"`
-	BatchMax   int         `json:"batch_max"`
-	WriteMax   int         `json:"write_max"`
-	FrameLens  []int       `json:"frame_lens"`
-	BatchLens  []int       `json:"batch_lens_written"`
-	MaxUncomp  int         `json:"max_batch_len_uncompressed"`
-	Batches    int         `json:"batches"`
-	Compressed int         `json:"batches_compressed"`
-	Codecs     []int8      `json:"codecs_seen,omitempty"`
-	Records    int         `json:"records_written"`
-	Rejected   int         `json:"records_rejected_too_large"`
-	MustReject int         `json:"records_that_had_to_be_rejected"`
-	NegTsDelta int         `json:"records_with_negative_timestamp_delta"`
-	Versions   []int16     `json:"produce_versions_seen"`
-	Viol       []violation `json:"violations,omitempty"`
-	Infra      string      `json:"infra,omitempty"`
+	ID          string         `json:"case"`
+	Note        string         `json:"size_search,omitempty"`
+	BatchMax    int            `json:"batch_max"`
+	WriteMax    int            `json:"write_max"`
+	FrameLens   []int          `json:"frame_lens"`
+	BatchLens   []int          `json:"batch_lens_written"`
+	MaxUncomp   int            `json:"max_batch_len_uncompressed"`
+	Batches     int            `json:"batches"`
+	Compressed  int            `json:"batches_compressed"`
+	Codecs      []int8         `json:"codecs_seen,omitempty"`
+	Records     int            `json:"records_written"`
+	Rejected    int            `json:"records_rejected_too_large"`
+	MustReject  int            `json:"records_that_had_to_be_rejected"`
+	NegTsDelta  int            `json:"records_with_negative_timestamp_delta"`
+	PrefixPairs map[string]int `json:"compact_prefix_width_pairs,omitempty"` // v9+: "<codec>:<bytes before>><bytes after compression>"
+	Versions    []int16        `json:"produce_versions_seen"`
+	Viol        []violation    `json:"violations,omitempty"`
+	Infra       string         `json:"infra,omitempty"`
 }
 
 type promised struct {
@@ -382,6 +383,15 @@ func (j *judge) judge(all []recSpec, proms []promised, frames [][]byte) {
 	sort.Slice(j.res.Versions, func(a, c int) bool { return j.res.Versions[a] < j.res.Versions[c] })
 }
 
+func codecName(c int8) string {
+	for n, k := range codecNum {
+		if k == c {
+			return n
+		}
+	}
+	return fmt.Sprintf("codec%d", c)
+}
+
 func countParts(p *prodReq) int {
 	n := 0
 	for _, t := range p.Topics {
@@ -530,6 +540,17 @@ func (j *judge) judgePartition(where string, recs []byte, all []recSpec, want []
 	}
 	if uncompressed > j.res.MaxUncomp {
 		j.res.MaxUncomp = uncompressed
+	}
+	if b.V >= 9 && expCodec != reflog.CodecNone {
+		// which (width before, width after compression) pair of the compact length prefix this batch exercised
+		pair := fmt.Sprintf("%s:%d>%d", codecName(expCodec), uvarintWidth(uncompressed+1), uvarintWidth(len(recs)+1))
+		if codec == reflog.CodecNone {
+			pair = fmt.Sprintf("%s:%d kept uncompressed", codecName(expCodec), uvarintWidth(uncompressed+1))
+		}
+		if j.res.PrefixPairs == nil {
+			j.res.PrefixPairs = map[string]int{}
+		}
+		j.res.PrefixPairs[pair]++
 	}
 	// "this is the maximum size of a record batch before compression"
 	if uncompressed > int(b.BatchMax) {
